@@ -30,11 +30,11 @@ pub fn is_sibling<T: EbmlSpecification<T> + EbmlTag<T> + Clone>(current_id: u64,
 /// There are a couple of other cases where an Unknown sized tag can end, but they rely on knowing document position and tag sizes.  More details can be found in the [EBML RFC](https://www.rfc-editor.org/rfc/rfc8794.html#name-unknown-data-size).
 /// 
 pub fn is_ended_by<T: EbmlSpecification<T> + EbmlTag<T> + Clone>(current_id: u64, test_id: u64) -> bool {
-    is_parent::<T>(current_id, test_id) || // parent
-    is_sibling::<T>(current_id, test_id) || // sibling
-    ( // Root element
-        <T>::get_tag_data_type(test_id).is_some() && 
-        <T>::get_path_by_id(test_id).is_empty()
+    // Tags that are not in the specification have no known place in the document, so they never end another tag
+    <T>::get_tag_data_type(test_id).is_some() && (
+        is_parent::<T>(current_id, test_id) || // parent
+        is_sibling::<T>(current_id, test_id) || // sibling
+        <T>::get_path_by_id(test_id).is_empty() // Root element
     )
 }
 
